@@ -48,7 +48,6 @@ Qed.
 
 (* ------------------------------------------------------------------ texts that cannot spell inf or nan *)
 
-Definition is_fin (f : fdesc) : Prop := match f with FFin _ _ _ => True | _ => False end.
 
 Lemma num_char_not_letter c : num_char c = true -> lower_is c 105 = false /\ lower_is c 110 = false /\ (c =? ch_lpar) = false /\ c_isspace c = false.
 Proof.
@@ -112,9 +111,6 @@ Proof.
   destruct (cx_close false rest); [|discriminate]. intros X. inversion X; subst. apply (cx_body_plain s re im rest H B).
 Qed.
 
-Lemma cap_ok_fin_any a f : is_fin f -> cap_ok a f = true.
-Proof. destruct f; [reflexivity | contradiction | contradiction]. Qed.
-
 (* ------------------------------------------------------------------ separator insertion *)
 
 Lemma sep_ins_remove : forall t t', sep_ins t t' -> remove_seps t' = remove_seps t.
@@ -133,6 +129,20 @@ Qed.
 
 Lemma sep_ins_nil t : sep_ins t [] -> t = [].
 Proof. intros H. inversion H. reflexivity. Qed.
+
+Lemma sep_ins_mem : forall t t', sep_ins t t' -> forall k, is_sep k = false -> mem k t' = mem k t.
+Proof.
+  induction 1 as [| c t t' H IH | s t t' Hs H IH]; intros k K; [reflexivity | |].
+  - unfold mem in *. cbn [existsb]. rewrite (IH k K). reflexivity.
+  - unfold mem in *. cbn [existsb]. rewrite (IH k K).
+    assert (E : (k =? s) = false) by (apply N.eqb_neq; intros ->; congruence). rewrite E. reflexivity.
+Qed.
+
+Lemma sep_ins_noi t t' c : sep_ins t t' -> has_i (c :: t') = has_i (c :: t).
+Proof.
+  intros H. unfold has_i, mem. cbn [existsb]. fold (mem 105 t') (mem 73 t') (mem 304 t') (mem 105 t) (mem 73 t) (mem 304 t).
+  rewrite (sep_ins_mem t t' H 105 eq_refl), (sep_ins_mem t t' H 73 eq_refl), (sep_ins_mem t t' H 304 eq_refl). reflexivity.
+Qed.
 
 Section Sep.
 Variable U : uni.
@@ -179,7 +189,8 @@ Proof.
   { unfold hy_float. rewrite SS, SS0. rewrite (py_float_plain U (c :: t) NC NE FS).
     destruct (strtod (c :: t)) as [[f r]|] eqn:ST; [|reflexivity].
     destruct (strtod_plain _ f r NC ST) as [FF _]. destruct r; [|reflexivity].
-    rewrite !(cap_ok_fin_any _ f FF). reflexivity. }
+    pose proof (num_char_noi _ NC) as NI. pose proof NI as NI'. rewrite <- (sep_ins_noi t t' c SI) in NI'.
+    rewrite (cap_ok_fin_noi _ f FF NI), (cap_ok_fin_noi _ f FF NI'). reflexivity. }
   rewrite HF. destruct (hy_float U (c :: t)); [reflexivity|].
   assert (NB' : existsb (text_eqb (c :: t')) complex_bare_excluded = false).
   { rewrite bare_j_are. destruct t' as [|x t'']; [discriminate HS|]. cbn [existsb text_eqb]. rewrite !andb_false_r. reflexivity. }
@@ -190,8 +201,9 @@ Proof.
     - assert (FIN : is_fin re /\ is_fin im).
       { unfold py_complex in PC. rewrite TA, SU in PC. apply (complex_inner_plain _ _ _ NC PC). }
       destruct FIN as [FR FI].
-      rewrite (hy_complex_fin U (c :: t') re im); [| rewrite SS; exact PC | intros; apply cap_ok_fin_any; exact FR | intros; apply cap_ok_fin_any; exact FI].
-      rewrite (hy_complex_fin U (c :: t) re im); [reflexivity | rewrite SS0; exact PC | intros; apply cap_ok_fin_any; exact FR | intros; apply cap_ok_fin_any; exact FI].
+      pose proof (num_char_noi _ NC) as NI. pose proof NI as NI'. rewrite <- (sep_ins_noi t t' c SI) in NI'.
+      rewrite (hy_complex_fin U (c :: t') re im); [| rewrite SS; exact PC | exact NI' | exact FR | exact FI].
+      rewrite (hy_complex_fin U (c :: t) re im); [reflexivity | rewrite SS0; exact PC | exact NI | exact FR | exact FI].
     - unfold hy_complex. rewrite SS, SS0, PC. reflexivity. }
   rewrite HC. reflexivity.
 Qed.
